@@ -626,11 +626,19 @@ func googleExecute(x *explore.Exec, sc googleScenario) (*directory, []*localObs,
 				return cp.ValidateGroupMembership(user, gs, "token-of-"+user)
 			}
 		} else {
-			gp, err := authp.NewGoogleProvider(&authp.ProviderData{}, "", "", "", "")
+			// (with the real admin service the provider is built with a credentials file, so that the admin
+			// service is the one NewGoogleProvider itself constructs; only its Admin SDK client is replaced)
+			creds := ""
+			if sc.RealAdmin {
+				creds = credFile
+			}
+			gp, err := authp.NewGoogleProvider(&authp.ProviderData{}, "", "", "admin@corp.test", creds)
 			if err != nil {
 				panic(explore.HarnessError{Msg: err.Error()})
 			}
-			gp.AdminService = adminFake{d}
+			if !sc.RealAdmin {
+				gp.AdminService = adminFake{d}
+			}
 			if sc.RealAdmin {
 				if err := authp.VerifUseRealAdminService(gp, &http.Client{Transport: dirTransport{d}}); err != nil {
 					panic(explore.HarnessError{Msg: err.Error()})
@@ -740,7 +748,13 @@ func googleOracle(d *directory, obs []*localObs, s *sched.Sched, probs []c17Prob
 
 // ---- scenarios and driver -------------------------------------------------------------------
 
+// credFile: a dummy service-account credentials file for NewGoogleProvider (see harness.GoogleCredentialsFile)
+var credFile string
+
 func c17Run(c *fw.Ctx) {
+	var rmCred func()
+	credFile, rmCred = harness.GoogleCredentialsFile()
+	defer rmCred()
 	b := 2
 	if c.Thorough() {
 		b = 3
